@@ -38,7 +38,8 @@ CLAIMED = {
         text="Real SCPI_Parse (unit loop, in-place compound-header composition, first-match lookup, -113 with unit text, SCPI_CmdTag/SCPI_IsCmd) "
              "on every well-formed message up to the bound over {A B C : ; ? * LF} against an 8-entry table with overlapping patterns, an optional "
              "keyword, a query and a common command; the oracle recomputes effective headers from the text by the stated rule and the expected "
-             "first-matching entry. Pattern acceptance inside the run is the reference relation of the table (the real matcher is C03's subject).",
+             "first-matching entry. Pattern acceptance inside the run is the reference relation of the table (the real matcher is C03's subject). "
+             "Second family: concrete 2-, 3- and 4-unit message texts with a SYMBOLIC acceptance relation of the command table (any 8-entry table at once).",
         tech="CBMC bounded model checking of real SCPI_Parse dispatch on symbolic messages vs text-level compound-header oracle",
         ref="3 C02"),
     "C04": dict(
@@ -84,7 +85,8 @@ CLAIMED = {
     "C09": dict(
         text="Differential check on two contexts: B after message A (7 concrete A templates: complete, failing midway, unfinished block, "
              "incomplete string, undefined header, common command) and after ARBITRARY values in every carried-over parser field, versus B on a "
-             "fresh context, with symbolic handler behaviour: same handler calls, effective headers, parameters, output bytes, new errors, result.",
+             "fresh context, with symbolic handler behaviour: same handler calls, effective headers, parameters, output bytes, new errors, result. "
+             "Removal of consumed bytes from the input buffer: functional specification of the real SCPI_Input buffer logic (shared with C08).",
         tech="CBMC differential bounded model checking of real SCPI_Parse on two contexts with havocked carried-over parser state",
         ref="3 C09"),
     "C19": dict(
@@ -114,7 +116,8 @@ CLAIMED = {
         text="Each buffer-filling API gets a caller buffer of SYMBOLIC length 0..24/40 whose end is the end of the underlying object, "
              "so CBMC's bounds checks are the canary for every byte behind it; NUL-termination and returned length are asserted. "
              "Values, unit names, special names and quoted texts are symbolic; libc snprintf is a contract model printing table text; "
-             "the built-in formatter is checked with its digit generator replaced by an arbitrary-digits stub.",
+             "the built-in formatter is checked with its digit generator replaced by an arbitrary-digits stub. Integer to string: "
+             "truncation relation for every buffer length 0..70 (C14's harness) on decimal slices, sign-boundary windows and all base-16 values.",
         tech="CBMC bounded model checking with exact-size symbolic-length caller buffers (bounds checks as canaries)",
         ref="3 C15"),
     "C17": dict(
